@@ -38,7 +38,7 @@ def natsStr (l : List Nat) : String := if l.isEmpty then "-" else ",".intercalat
 
 def dump (ns : Nat) (e : Ep) : String :=
   let sr := if e.sd == 0 then "-" else if e.sd == 1 then "w" else "ok"
-  s!"st={e.st} ws={bs e.wS} wa={bs e.wSA} wc={bs e.wSC} scp={bs e.scp} t2={e.t2} ack={e.ack} pn={e.pend.length} if={e.inflight} cum={e.cum} pl={e.pl} rq={natsStr (e.rq.mergeSort (fun a b => decide (a ≤ b)))} dead={bs e.dead} sr={sr} rx={e.store.length + e.rlog.length} re={if e.dead then ns else 0}"
+  s!"st={e.st} ws={bs e.wS} wa={bs e.wSA} wc={bs e.wSC} scp={bs e.scp} t2={e.t2} ack={e.ack} pn={e.snd.pend.length} if={e.inflight} cum={e.snd.cum} pl={e.rcv.pl} rq={natsStr (e.rcv.rq.mergeSort (fun a b => decide (a ≤ b)))} dead={bs e.dead} sr={sr} rx={e.rcv.store.length + e.rcv.rlog.length} re={if e.dead then ns else 0}"
 
 def chunkStr : Chunk → String
   | .data t m s k => s!"D{t}.{m}.{s}.{k}"
@@ -117,7 +117,7 @@ def step (st : St) (op impl : List String) : St × String × Option String :=
   | ["write", x, sid, _] =>
     let x := side x
     let r := write (st.s.ep x) (parseNat! sid)
-    let id := (st.s.ep x).attempts
+    let id := (st.s.ep x).snd.attempts
     let st := { st with s := st.s.step (.write x (parseNat! sid)) }
     let p := st.side x
     -- predicate on the implementation's result
@@ -169,7 +169,7 @@ def step (st : St) (op impl : List String) : St × String × Option String :=
     let sid := parseNat! sid
     let e := st.s.ep x
     let e' := read e sid
-    let new := (e'.rlog.drop e.rlog.length).map (·.2)
+    let new := (e'.rcv.rlog.drop e.rcv.rlog.length).map (·.2)
     let st := { st with s := st.s.step (.read x sid) }
     -- predicate on the implementation's result: `r=<ids> <eof|err|->`
     let p := st.side x
